@@ -214,7 +214,11 @@ func fnHRandField(ctx *cmdContext, args map[string]any) (output respValue, err e
 func fnHScan(ctx *cmdContext, args map[string]any) (output respValue, err error) {
 	keyName := args["key"].(string)
 	cursor := args["cursor"].(int64)
-	match, _ := args["pattern"].(string)
+	match, matchSpecified := args["pattern"].(string)
+	if !matchSpecified {
+		// no MATCH option: everything matches (an empty pattern only matches the empty name)
+		match = "*"
+	}
 	count, countSpecified := args["count"].(int64)
 
 	if countSpecified {
